@@ -11,7 +11,7 @@ import numpy as np
 
 
 class SymCoords:
-    def __init__(self, ctx, ts, scale=None, prefix="x"):
+    def __init__(self, ctx, ts, scale=None, prefix="x", name_by_position=False):
         from symx.dom import sym, Q
         self.ts = ts
         pts = sorted(set(ts.edges_left) | set(ts.edges_right) | {0.0, ts.sequence_length})
@@ -39,7 +39,7 @@ class SymCoords:
             if p == lo and p in self.map:
                 v = self.map[p]            # a site exactly on a breakpoint stays on it
             else:
-                v = sym(f"{prefix}site{s}", "nonneg")
+                v = sym(f"{prefix}site@{p}" if name_by_position else f"{prefix}site{s}", "nonneg")
                 ctx.assume(v > self.map[lo])
                 ctx.assume(v < self.map[hi])
                 if prev_val is not None and prev_val >= lo and prev_sym is not None:
